@@ -27,6 +27,17 @@ CHECKS.update({
  "C09": ("snapmc", "exhaustive enumeration of (grid, id, border, distance, vertex position, ring, flag) through the real snap.SnapPolygon vs half-open extent test on specified fixed-point quantisation",
    "19 grids (two origins, both corners of origin, two depths, two tile widths, RD at three ids) x 4 borders x 42 distances from 1e-10 to the whole extent x outside/inside x every vertex position x both flag values.", "Trusted: the extent of each grid computed from its definition; quantisation as specified (1e-10, truncating).", "3/C09"),
 })
+CHECKS.update({
+ "C14": ("tmsmc", "exhaustive enumeration of (built-in set, deepest id) and of every single-level perturbation of every accepted set through the real validateTileMatrixSet (overlay-added in-package test), the real binary and IsQuadTree, against an exact-decimal reference quadtree predicate; pixel size observed through the index",
+   "All 14 shipped sets x all their ids, observed three ways (binary, in-package, library) and compared with a reference predicate; ~3 200 single-condition perturbations (every condition at every level) must be rejected without panic; accepted sets must use pixel size = cellSize/16.",
+   "Trusted: reference predicate on exact decimals with the tool's stated 1.99..2.01 cell-size tolerance; `go test -overlay` to reach the unexported validateTileMatrixSet (go:embed does not see overlay files, so perturbed sets cannot reach the binary).", "3/C14"),
+ "C15": ("tmsmc", "exhaustive enumeration of (set, tile matrix, tile, interior/outside point) through the real FromNative/ToNative/MatrixBoundingBox against exact rational arithmetic on the documents' decimals",
+   "All tiles of every matrix with <= 4096 tiles (thorough 65 536), else all combinations of 8 column and 8 row classes; 5 interior points per tile, 8 outside points per matrix; both corner-of-origin conventions.",
+   "Trusted: hand-checked axis-order table; tolerance = documented 9-decimal rounding + 8 ulp of the largest operand.", "3/C15"),
+ "C16": ("tmsmc", "explicit-state BFS over documents (canonical-JSON states, one structural mutation per transition) from the 15 shipped documents, each state decoded/encoded/decoded by the real tms20 code and classified by a reference validity predicate",
+   "Depth 1 from all full documents, depth 2 (thorough: 3 for two documents) from reduced documents; round trip stability, semantic equality for shipped documents, no panic, must-reject categories rejected.",
+   "Trusted: the must-reject predicate (only categories the property names); nil/empty slices identified.", "3/C16"),
+})
 PENDING = {}
 ALL = ["C01","C02","C03","C04","C18","C05","C06","C07","C08","C09","C10","C11","C12","C13","C14","C15","C16","C17"]
 
@@ -59,6 +70,7 @@ def main():
         },
         "engines": [
             {"name": "snapmc", "path": "engine/cmd/snapmc", "serves_properties": ["C01","C02","C03","C04","C05","C06","C07","C08","C09","C18"], "kind_free_text": "process-sharded DFS over lattice inputs executing the real snap/pointindex code against exact reference models (engine/ref, engine/lat, engine/grid)"},
+            {"name": "tmsmc", "path": "engine/cmd/tmsmc", "serves_properties": ["C14","C15","C16"], "kind_free_text": "exhaustive enumeration / explicit-state BFS over tile matrix set documents and their mutations on the real tms20, pointindex and main code"},
             {"name": "bitmc", "path": "engine/cmd/bitmc", "serves_properties": ["C17"], "kind_free_text": "exhaustive bit-pattern enumeration on the real code vs bit-loop reference"},
         ],
         "checks": checks,
